@@ -36,7 +36,7 @@ ASSUMPTIONS = ["(c) waits link_timeout + check period + one probe cycle of "
                "seconds"]
 REQUIRED = ["probes", "graphs", "graphs_with_cycles", "graphs_with_oneway",
             "histories", "changes_judged", "flood_probes", "link_events",
-            "both_directions_one_sweep", "quiet_periods_checked"]
+            "both_directions_one_sweep", "quiet_periods_checked", "ports_hot_plugged"]
 TIMEOUT = {"quick": 1500, "thorough": 10800}
 
 _st = {}
@@ -228,7 +228,8 @@ def run_graph (case, rep):
 # (c) end to end
 
 class Topo (object):
-  def __init__ (self, w, n, dpid_base):
+  def __init__ (self, w, n, dpid_base, initial_ports=4):
+    self.initial_ports = initial_ports
     self.w = w
     self.n = n
     self.dpids = [dpid_base + i for i in range(n)]
@@ -242,7 +243,8 @@ class Topo (object):
 
   def connect (self, i):
     c, s = self.w.connect_switch_socket("t%d" % i)
-    sp = simnet.SwitchPeer(self.w, self.dpids[i], s, ports=4, max_buffers=0)
+    sp = simnet.SwitchPeer(self.w, self.dpids[i], s, ports=self.initial_ports,
+                           max_buffers=0)
     sp.on_out = (lambda peer, port, raw, i=i: self.emitted(i, port, raw))
     self.sw[i] = sp
     sp.hello()
@@ -287,7 +289,8 @@ class Topo (object):
   def directed_links (self):
     out = set()
     for (i, p), (j, q) in self.phys.items():
-      if self.up[(i, p)] and i in self.sw and j in self.sw:
+      if self.up[(i, p)] and i in self.sw and j in self.sw \
+         and p in self.sw[i].switch.ports and q in self.sw[j].switch.ports:
         out.add((self.dpids[i], p, self.dpids[j], q))
     return out
 
@@ -339,7 +342,8 @@ def run_history (case, rep):
   disc = core.openflow_discovery
   n, wires = TOPOS[case["topo"]]
   _st["dpid"] = _st.get("dpid", 0x3000) + 16
-  topo = Topo(w, n, _st["dpid"])
+  topo = Topo(w, n, _st["dpid"],
+              initial_ports=case.get("initial_ports", 4))
   for (i, p, j, q) in wires: topo.wire(i, p, j, q)
   mine = set(topo.dpids)
   ev0 = len(_st["events"])
@@ -382,11 +386,28 @@ def run_history (case, rep):
         if op[1] in topo.sw and len(topo.sw) > 1: topo.disconnect(op[1])
       elif k == "up":
         if op[1] not in topo.sw: topo.connect(op[1])
+      elif k == "hotplug":
+        # ports that did not exist when the switch connected are added one
+        # by one (each announced with a port-status message)
+        for i in sorted(topo.sw):
+          for pno in (1, 2, 3, 4):
+            if pno not in topo.sw[i].switch.ports:
+              # (add_port(<int>) itself is broken in the pinned tree: it hands
+              #  the dpid to generate_port as the port name; not a C19 matter)
+              topo.sw[i].switch.add_port(topo.sw[i].switch.generate_port(pno))
+              w.run()
+        rep.count("ports_hot_plugged")
       nt = True
       gone = links_before - topo.directed_links()
       topo.settle(SETTLE)
       rep.count("changes_judged")
       if spurious(mark, gone, "after %s" % (op,)): return True
+      if k == "hotplug":
+        # ... and the new links stay
+        if not judge(topo, fire, rep, "after %s" % (op,), mine, ev0): return True
+        mark2 = len(_st["events"])
+        topo.settle(2 * SETTLE)
+        if spurious(mark2, set(), "quiet period after hot-plugging ports"): return True
       if not judge(topo, fire, rep, "after %s" % (op,), mine, ev0): return True
   except Exception:
     fire("exception", traceback.format_exc()[-800:])
@@ -473,6 +494,8 @@ def judge (topo, fire, rep, when, mine, ev0):
     sp.switch.rx_message(sp.conn, __import__("pox.openflow.libopenflow_01",
                          fromlist=["x"]).ofp_flow_mod.unpack_new(fm)[1])
   src = sorted(topo.sw)[0]
+  if 4 not in topo.sw[src].switch.ports:
+    return True            # (no host-facing port yet to send the probe from)
   topo.flood_seen = {}
   frame = F.eth(b"\xff" * 6, b"\x02\0\0\0\0\x77", 0x88b5, b"flood-probe")
   topo.sw[src].inject(4, frame)
@@ -609,6 +632,9 @@ def gen_histories (rng, n, link_timeout=None):
       else:
         ops.append(["up", rng.randrange(nsw)])
     case = dict(kind="e2e", topo=tname, ops=ops)
+    if rng.random() < 0.25:
+      case["initial_ports"] = rng.choice([0, 1])
+      case["ops"] = [["hotplug"]] + ops
     if link_timeout: case["link_timeout"] = link_timeout
     yield case
 
